@@ -93,7 +93,8 @@ def run(ctx):
       'the default schedule; 5 configurations with every placement of one pause '
       'of the orchestrating loop (slow orchestrator, pause until quiescence, once '
       'per executed line); 5 configurations with every placement of one late '
-      'reply; the smallest instance of each driver under delay '
+      'reply; 4 configurations with the worker shuffles as environment choices '
+      '(<= 2 deviations, thorough 3); the smallest instance of each driver under delay '
       f'bound {1 if ctx.quick else 2}; merge_states strict count for all '
       '(m, n) in 0..4 x 1..5 on both runner kinds. distinct = distinct configuration '
       '(x schedule).')
@@ -136,6 +137,18 @@ def run(ctx):
   explorer.explore_all(ctx, MODULE, slow, pre_bound=-1,
                        dev_bound=1 if ctx.quick else 2, split=8)
   ctx.notes['slow_reply_configurations'] = len(slow)
+  # the random order in which the drivers try the workers (random.shuffle) as
+  # an environment choice: every rotation at every shuffle, <= 2 deviations,
+  # alone and combined with one late reply
+  shuf = [('sharded', dict(W=3, S=3, total=6, batch=2, shuffle=True)),
+          ('sharded', dict(W=2, S=3, total=6, batch=2, shuffle=True,
+                           menu=['slow-reply'])),
+          ('interleaved', dict(total=4, batch=2, pool=True, W=3, shuffle=True)),
+          ('interleaved', dict(total=4, batch=2, pool=True, W=2, shuffle=True,
+                               menu=['slow-reply']))]
+  explorer.explore_all(ctx, MODULE, shuf, pre_bound=-1,
+                       dev_bound=2 if ctx.quick else 3, split=8)
+  ctx.notes['shuffle_configurations'] = len(shuf)
   ctx.pmap(_strict_count_unit, [0])
   # the smallest instance of each driver under delay-bounded schedule
   # exploration (last: the thorough bound may be cut by the time budget)
